@@ -171,6 +171,9 @@ def quick_instances() -> list[Instance]:
                                     ("sixtasks", 2, 2, [("a", "0"), ("d", "0"), ("q", "0")], "src_sinks"),
                                     ("fanout4", 2, 2, [("m1", "0"), ("m2", "0"), ("m3", "0"), ("m4", "0")], "sinks"),
                                     ("gpumix", 2, 2, [("k", "0")], "gpu"),
+                                    # a REQUESTED dataset with more consumers than its host has workers: fetched for the caller and
+                                    # replicated to the other host at the same time (either answer may come first)
+                                    ("fanout4", 2, 2, [("s", "0"), ("m1", "0")], "src_sink"),
                                     ("manyout", 2, 1, [("u", "0"), ("v", "0"), ("w", "0"), ("g", "11")], "sinks_mid"),
                                     ("manyout", 1, 2, [("u", "0"), ("v", "0"), ("w", "0")], "sinks"),
                                     ("manyin", 2, 1, [("u", "0"), ("m", "0")], "sinks"), ("manyin", 1, 2, [("u", "0"), ("m", "0")], "sinks")]:
